@@ -57,6 +57,11 @@ impl<'s> Read<'s> for SliceReader<'s> {
         }
     }
 
+    fn read_bytes(&mut self, n: usize) -> Result<Vec<u8>, io::Error> {
+        // Check the claimed length against what is there before allocating
+        self.get_byte_slice(n).map(|s| s.to_vec())
+    }
+
     fn read_exact(&mut self, buf: &mut [u8]) -> Result<(), io::Error> {
         std::io::Read::read_exact(&mut self.slice, buf)
     }
